@@ -336,6 +336,10 @@ def _freeze(r, depth=0):
     if isinstance(r, np.ndarray):
         if r.dtype.hasobject:
             return ("obj-array", r.shape)
+        if r.dtype.names is not None and r.dtype.itemsize != sum(r.dtype.fields[n][0].itemsize for n in r.dtype.names):
+            # padding bytes carry no value (and numpy does not promise to copy them): field by field
+            return ("array", repr([(n, r.dtype.fields[n][0].str, r.dtype.fields[n][1]) for n in r.dtype.names]), r.shape,
+                    tuple(np.ascontiguousarray(r[n]).tobytes() for n in r.dtype.names))
         return ("array", r.dtype.str if r.dtype.names is None else repr(r.dtype.descr), r.shape, r.tobytes())
     if isinstance(r, (tuple, list)) and depth < 3 and len(r) <= 64:
         return (type(r).__name__,) + tuple(_freeze(x, depth + 1) for x in r)
